@@ -286,4 +286,8 @@ def gen_pattern(rng, strs):
         out.insert(0, ".*")
     elif r < 0.35:
         out = out[: len(out) // 2]
+    elif r < 0.45 and len(out) >= 2:
+        # an alternation whose first branch is a proper prefix of the second; or a lazy quantifier at the end
+        whole = "".join(out)
+        return "%s|%s" % ("".join(out[: len(out) // 2]), whole) if rng.random() < 0.6 else whole + rng.choice(["x??", "b+?", ".*?", "a??"])
     return "".join(out)
